@@ -2,14 +2,16 @@
 
 use crate::prng::Rng;
 
-pub const ZINC_TOKENS: [&str; 52] = [
+pub const ZINC_TOKENS: [&str; 66] = [
+    "Bin(", "Bin(text/plain", "Span(", "1e+_5", "C(_1,2)", "2.5E-_3kW", "1._5", "-_1", "_1", "e+", "E-", "+23:60 London", "-23:99 New_York", "T23:59:60",
     "+24:00 London", "-99:99 X", "+23:60 UTC", "T25:61:61", "9999-99-99", "Z Zzz",
     "\\uD800", "\\udfff", "\\u0000", "\u{c}", "\u{b}", "\u{1}",
     "[", "]", "{", "}", "<<", ">>", ",", "\n", "\r\n", "\"", "`", ":", "N", "M", "NA", "T", "ver:\"3.0\"", "-", "1e", "\\u12", "\\", "@", "^",
     "C(", ")", "(", "X(\"", "2021-01-01", "T00:00:00", "Z", "+10:00 ", "12:", ".", "_", "INF", "-INF", "NaN", " ", "a", "\u{e9}",
 ];
 
-pub const FILTER_TOKENS: [&str; 39] = [
+pub const FILTER_TOKENS: [&str; 49] = [
+    "1e+_5", "1e", "e-", "_", "+23:60 London", "-23:99 New_York", "T23:59:60", "2021-08-06T17:05:00", "\\u00E9", "\\uD800",
     "\u{c}", "\u{b}", "\u{0}",
     "(", ")", " and ", " or ", "not ", "==", "!=", "<", "<=", ">", ">=", "->", "*==", "?", "^", "@", "\"", "`", "-", "1", "a", "true", "false",
     " ", "\n", "\\", "2021-01-01", "12:00:00", "T", "Z", "kW", "%", "=", "!", "*", "\u{e9}",
